@@ -708,7 +708,10 @@ class Executor:
         ca = self.prog.find_class_attr(cls, attr)
         if ca is not None:
             return self.reg.class_attr_value(self, st, cls, attr, ca)
-        # attribute missing: AttributeError
+        # attribute missing: a definite AttributeError only if no method of the class ever stores to self.<attr>;
+        # otherwise the object's (ghost) view simply does not declare the field -> outside the verifier's reach
+        if self.prog.assigns_instance_attr(cls, attr):
+            raise EngineUnsupported(f"attribute {attr} of {cls} is not declared in the object's view (line {getattr(node, 'lineno', '?')})")
         self.oblige(st, f"safety[AttributeError:{cls}.{attr}@{getattr(node, 'lineno', 0)}]", z3.BoolVal(False),
                     lineno=getattr(node, 'lineno', 0))
         return []
